@@ -25,7 +25,7 @@ from ..common import MachineryError, time_limit, ImplTimeout
 
 NWORK = 14
 BATCH = 25000  # traces per judge run
-LIMIT = 20  # seconds per library call; a time-out is retried once in a new process with 10 x LIMIT
+LIMIT = 30  # seconds per library call; a time-out is retried once in a new process with 10 x LIMIT
 
 
 def cp(s):
@@ -65,17 +65,35 @@ def _fresh(fn, arg):
     return json.loads(data)
 
 
+_ABORT = None  # shared by the pool workers: number of time-outs so far (a looping implementation must not
+MAXLATE = 40   # cost LIMIT seconds for every one of thousands of histories)
+
+
+def _late(r):
+    return "ops" in r and any(o["status"] == "timeout" for o in r["ops"])
+
+
+def _guarded(fn, task):
+    if _ABORT is not None and _ABORT.value >= MAXLATE:
+        return {"skipped": True}
+    r = fn(task)
+    if _ABORT is not None and _late(r):
+        with _ABORT.get_lock():
+            _ABORT.value += 1
+    return r
+
+
 def _task(task):
     if task["kind"] == "kw":
         return _fresh(_read_keywords, None)
-    return _fresh(_history, task)
+    return _guarded(lambda t: _fresh(_history, t), task)
 
 
 def _chunk(tasks):
     out = []
     for t in tasks:
         try:
-            out.append(_history(t, reload=True))
+            out.append(_guarded(lambda x: _history(x, reload=True), t))
         except BaseException as ex:  # noqa
             out.append({"crash": "%s: %s" % (type(ex).__name__, str(ex)[:500])})
     return out
@@ -111,10 +129,12 @@ def run_tasks(tasks):
     """results in task order.  The parent process never constructs a writer."""
     import multiprocessing as mp
 
+    global _ABORT
     if not tasks:
         return []
     _warm()
     ctxm = mp.get_context("fork")
+    _ABORT = ctxm.Value("i", 0)
     res = [None] * len(tasks)
     fr = [i for i, t in enumerate(tasks) if t["kind"] == "kw" or t.get("mode") == "fresh"]
     rl = [i for i, t in enumerate(tasks) if not (t["kind"] == "kw" or t.get("mode") == "fresh")]
@@ -129,18 +149,29 @@ def run_tasks(tasks):
             for idx, rs in zip(chunks, pool.map(_chunk, [[tasks[i] for i in c] for c in chunks], chunksize=1)):
                 for i, r in zip(idx, rs):
                     res[i] = r
-    # a time-out on a busy machine is not a verdict: retry (a few) in new processes with a much longer limit
-    late = [i for i, r in enumerate(res) if "ops" in r and any(o["status"] == "timeout" for o in r["ops"])]
-    if late:
-        again = late if len(late) <= 40 else late[:6]
-        redo = []
-        for i in again:
-            t = dict(tasks[i])
-            t["limit"] = 10 * LIMIT
-            redo.append(t)
-        with ctxm.Pool(NWORK) as pool:
-            for i, r in zip(again, pool.map(_task, redo, chunksize=1)):
-                res[i] = r
+    # A time-out on a busy machine is not a verdict.  The first few are retried in new processes with a much
+    # longer limit: if one of them still does not return, that is reported (and the rest is left aside);
+    # if they all return, the machine was busy and everything left over is run again with the long limit.
+    _ABORT = None
+    late = [i for i, r in enumerate(res) if _late(r)]
+    rest = [i for i, r in enumerate(res) if r.get("skipped")]
+    if late or rest:
+        def again(idx):
+            redo = []
+            for i in idx:
+                t = dict(tasks[i])
+                t["limit"] = 10 * LIMIT
+                redo.append(t)
+            with ctxm.Pool(NWORK) as pool:
+                for i, r in zip(idx, pool.map(_task, redo, chunksize=1)):
+                    res[i] = r
+
+        again(late[:NWORK])
+        if any(_late(res[i]) for i in late[:NWORK]):
+            for i in late[NWORK:]:
+                res[i] = {"skipped": True}
+        else:
+            again(late[NWORK:] + rest)
     return res
 
 
@@ -1014,6 +1045,10 @@ def assemble(ctx, results, plan, kwlen, stats):
     first use?, mode).  The first-use run of every problem (the one in a new process where there is one)
     supplies the `fresh` names of every history that writes the same problem."""
     pristine = {}
+    nskip = sum(1 for r in results if r.get("skipped"))
+    if nskip:
+        stats["skipped"] = stats.get("skipped", 0) + nskip
+    results = [r for r in results if not r.get("skipped")]
     for r in results:
         if "crash" in r:
             raise MachineryError("child process failed: %s" % r["crash"])
@@ -1189,7 +1224,9 @@ def run(ctx):
     ctx.notes["writer_outcomes"] = stats
     ok_p = stats.get("pddl:ok", 0)
     ok_a = stats.get("anml:ok", 0)
-    if ok_p < (len(corpus) + n_enum) // 4 or ok_a < len(corpus) // 2:
+    if stats.get("skipped") and not ctx.violations:
+        raise MachineryError("histories were skipped after time-outs although no history failed to terminate: %r" % stats)
+    if not ctx.violations and (ok_p < (len(corpus) + n_enum) // 4 or ok_a < len(corpus) // 2):
         raise MachineryError("too few problems were written (vacuous run): %r" % stats)
     for t in traces:
         if t["lang"] == "pddl" and len(t["ops"]) == 2:
